@@ -113,12 +113,14 @@ class DataProxy:
         # attributes will always be yielded on attribute access and this method
         # is skipped. That behavior is good for us (it's more intuitive than
         # having a config key accidentally shadow a real attribute or method).
+        # Proxy most special vars to config for dict procotol. These are part
+        # of our (dict-like) API, so - like real methods - they win over
+        # same-named config keys, which remain reachable via dict syntax.
+        if key in self._proxies:
+            return getattr(self._config, key)
         try:
             return self._get(key)
         except KeyError:
-            # Proxy most special vars to config for dict procotol.
-            if key in self._proxies:
-                return getattr(self._config, key)
             # Otherwise, raise useful AttributeError to follow getattr proto.
             err = "No attribute or config key found for {!r}".format(key)
             attrs = [x for x in dir(self.__class__) if not x.startswith("_")]
